@@ -988,8 +988,8 @@ def main(tier, seed, parts="DRT"):
     if thorough:
         D += [("B2_e4_t8", LB(2), consts(MaxEnv=4, MaxNow=8)), ("B2_e3_t7", LB(2), consts(MaxEnv=3, MaxNow=7)), ("B3_e3_t9", LB(3), consts(MaxEnv=3, MaxNow=9)),
               ("B1_res2_e3_t10", LB(1), consts(MaxEnv=3, MaxNow=10, Res=2)),
-              ("C1_e3_t5", LAYOUTS["C1"], consts(MaxEnv=3, MaxNow=5)), ("C2_e3_t3", LAYOUTS["C2"], consts(MaxEnv=3, MaxNow=3)),
-              ("A1_e3_t4", LAYOUTS["A1"], consts(MaxEnv=3, MaxNow=4)), ("A2_e3_t4", LAYOUTS["A2"], consts(MaxEnv=3, MaxNow=4)),
+              ("C1_e3_t5", LAYOUTS["C1"], consts(MaxEnv=3, MaxNow=5)), ("C2_e2_t3", LAYOUTS["C2"], consts(MaxEnv=2, MaxNow=3)),
+              ("A1_e3_t4", LAYOUTS["A1"], consts(MaxEnv=3, MaxNow=4)), ("A5_e2_t3", LAYOUTS["A5"], consts(MaxEnv=2, MaxNow=3)),
               ("A1_b3", LAYOUTS["A1"], consts(MaxEnv=1, MaxNow=1, MaxB=3))]
     for name, L, c in (D if "D" in parts else []):
         run_mc(chk, name, L, c, timeout=1500)
@@ -1000,11 +1000,19 @@ def main(tier, seed, parts="DRT"):
     run_mc(chk, "illformed_X1", LAYOUTS["X1"], consts(MaxEnv=1, MaxNow=1), expect=["OncePerNode", "NeverToOriginator"])
     # ---- R ----
     traces = []
-    rc = consts(MaxNow=4 if thorough else 3, MaxEnv=3 if thorough else 2, MaxB=1, StickyUnreg="TRUE" if sticky else "FALSE", **CODE)
-    for sc in graph_scripts(chk, "R_B1_code_constants", LB(1), rc, rng, limit=4000 if thorough else 300):
-        t = record_script(LB(1), 1, sc)
-        traces.append(t)
-        chk.case(("R", json.dumps([x[:4] for x in sc])), nontrivial=True)
+    # (the model with the constants of the code: 5 s / 30 s / 30 s, so that TLC's behaviours can be forced 1:1)
+    sk = "TRUE" if sticky else "FALSE"
+    R = [("R_B1", LB(1), consts(MaxNow=3, MaxEnv=2, MaxB=1, StickyUnreg=sk, **CODE), 5000 if thorough else 250)]
+    if thorough:
+        R += [("R_A5", LAYOUTS["A5"], consts(MaxNow=1, MaxEnv=1, MaxB=2, StickyUnreg=sk, **CODE), 3000),
+              ("R_B1_e3", LB(1), consts(MaxNow=1, MaxEnv=3, MaxB=1, StickyUnreg=sk, **CODE), 3000)]
+    else:
+        R += [("R_A5", LAYOUTS["A5"], consts(MaxNow=0, MaxEnv=1, MaxB=2, StickyUnreg=sk, **CODE), 100)]
+    for name, L, rc, limit in R:
+        for sc in graph_scripts(chk, name, L, rc, rng, limit=limit):
+            t = record_script(L, 1, sc)
+            traces.append(t)
+            chk.case(("R", name, json.dumps([x[:4] for x in sc])), nontrivial=True)
     # ---- T ----
     nlay, nhist = (110, 5) if thorough else (14, 3)
     for k in range(nlay):
